@@ -61,7 +61,9 @@ ConnPlan(k) ==
       dom == Pick(CredClasses)  usr == Pick(CredClasses \ {Empty})  pw == Secret(k)
       size == Pick(Sizes)  check == Pick(BOOLEAN)
       sel == IF nla THEN Pick({1, 2}) ELSE 1
-      uid == IF k % 3 = 0 THEN Pick(UidBoundaries) ELSE 1001 + RandomElement(0..64534) IN
+      \* any user id 1001..65535 except the I/O channel id 1003 (conforming-server assumption: a server never
+      \* assigns the I/O channel's id to a user)
+      uid == IF k % 3 = 0 THEN Pick(UidBoundaries) ELSE 1001 + RandomElement((0..64534) \ {2}) IN
   [cfg |-> [BaseCfg EXCEPT !.nla = nla, !.check = check, !.admin = admin, !.blank = Pick(BOOLEAN), !.auto = Pick(BOOLEAN), !.hash = hash,
                            !.domain = dom, !.user = usr, !.password = pw, !.name = Pick(NameClasses), !.w = size[1], !.h = size[2], !.layout = Pick({"us", "fr", "de"})],
    srv |-> [BaseSrv EXCEPT !.reply = [kind |-> "rsp", sel |-> B4(sel), flags |-> Pick({0, 1, 8, 255})], !.ident = Pick({"leaf", "leaf2"}) , !.uid = uid,
